@@ -48,6 +48,14 @@ fn one(drv: &mut Drv, rep: &mut Report, source: &str, stream: &[u8], with_spec: 
             if twin != *s {
                 rep.disagree(Disagreement { case: case.clone(), got: twin, expected: s.clone(), class: "correspondence", obligation: "validation of the proof-friendly specification VP8LP.decode against the executable specification VP8L.decode (not about the code)".into(), detail: source.into() });
             }
+            // the stream model with the crate's entropy layer (LStream.decodeCrate; proved equal to
+            // VP8LP.decode in C01.entropy_layer_in_stream) against the real decoder
+            let crate_model = drv.ask(&format!("vp8lcrate {}", hex(stream)));
+            rep.hit("crate_entropy_model_compared");
+            let real = match decode_impl(stream, w, h) { Ok(b) => format!("ok {w} {h} {}/{}", fnv_bytes(FNV_INIT, &b), b.len()), Err(_) => "invalid".to_string() };
+            if crate_model != real {
+                rep.disagree(Disagreement { case: case.clone(), got: real, expected: crate_model, class: "correspondence", obligation: "tie2: real VP8L decoder = LStream.decodeCrate (stream model with CodeRead.readCode + Huff.readSym)".into(), detail: source.into() });
+            }
         }
     }
     let got = decode_impl(stream, w, h);
